@@ -795,3 +795,86 @@ TRUSTED = TRUSTED + [
     "named primitives of the ObjPy translator (Model/ObjPy.lean), trusted with their documented meaning and exercised by the tzgen.ical.* / tzgen.str.* / tzgen.range.init|eq validation against the implementation's methods on every run: ASCII str.strip/int()/indexing/slicing, `comp.rrule.before(dt, inc=True)` as the last onset <= dt of the component's onset list, `list.index` on (naive datetime, fold) keys, list insert(0)/append/pop, `with self._cache_lock` transparent, `for` loops as monadic folds with a break flag, `relativedelta(**kwargs)` for the keywords month/day/weekday/yearday/nlyearday/seconds/hours producing the model's Delta record, `datetime(year,1,1) + relativedelta` = TzStr.applyDelta, `parser._parsetz` = TzStr.parse, timedelta(seconds=) with its OverflowError, int-or-None offset arguments (timedelta arguments not modelled), the object under construction as the tuple of its fields",
 ]
 # --- end of the appended block
+
+# --- ONE ZONE OBJECT, MANY CALLS (wt-tzrule): a _tzicalvtz keeps a ten-entry lookup cache in two parallel lists under a lock.
+def oracle_shared(ctx):
+    import tzshared as S
+    from dateutil import tz
+    rng = ctx.subrng("shared")
+    from dateutil.tz import tz as tzmod
+    V = tzmod._tzicalvtz
+    funcs = [V._find_comp, V._find_compdt, V.utcoffset, V.dst]
+    tn = getattr(V.tzname, "__wrapped__", V.tzname)
+    if hasattr(tn, "__code__"):
+        funcs.append(tn)
+    for k in range(ctx.budget(4, 30)):
+        spec = gen_spec(rng)
+        text = vtimezone(spec, order=k % 2)
+        mk = lambda text=text: load(text).get()
+        shared = mk()
+        case = {"zone": "tzical", "tzstr": tzstr_of(spec)}
+        def near(y, n=1):
+            qs = []
+            for tu in transitions_utc(spec, y):
+                for off in (spec["std"], spec["dst"]):
+                    for _ in range(n):
+                        w = tu + datetime.timedelta(seconds=off + rng.choice([-3600, -1, 0, 1, 1800, 3600]))
+                        f = rng.randint(0, 1)
+                        qs.append(("wall", w, f)); qs.append(("comp", w, f))
+            return qs
+        hist = []
+        for y in rng.sample(range(1975, 2035), 8):
+            hist += near(y)                                      # > 10 distinct keys several times over
+        hist += [("wall", datetime.datetime(9999, 12, 31, 23, 59, 59), 1), ("wall", datetime.datetime(1, 1, 1), 0), ("wall", datetime.datetime(1960, 1, 1), 0)]
+        pool = list(hist)
+        hist += [rng.choice(pool) for _ in range(60)]            # repeats, in and out of the cache
+        hist += [("utc", tu + datetime.timedelta(seconds=d)) for tu in transitions_utc(spec, 2021) for d in (-1, 0, 1)]
+        with warnings.catch_warnings():
+            warnings.simplefilter("ignore")
+            if not S.history(ctx, "tzical-cache", shared, mk, hist, case):
+                continue
+            # the two lists stay in step: same length, at most ten, and entry i of one belongs to entry i of the other
+            ctx.case(("cache-shape", case["tzstr"]))
+            if len(shared._cachedate) != len(shared._cachecomp) or len(shared._cachedate) > 10:
+                ctx.violation("tzical zone cache lists out of step after %d lookups: %d keys, %d components" % (len(hist), len(shared._cachedate), len(shared._cachecomp)),
+                              dict(case, kind="cache-shape"), text)
+                continue
+            ref = mk()
+            for (d, fo), c in zip(list(shared._cachedate), list(shared._cachecomp)):
+                if shared._comps.index(c) != ref._comps.index(ref._find_comp(d.replace(tzinfo=ref, fold=fo))):
+                    ctx.violation("tzical zone cache entry (%s, fold=%d) holds component %d, a fresh zone selects %d" % (
+                        d.isoformat(), fo, shared._comps.index(c), ref._comps.index(ref._find_comp(d.replace(tzinfo=ref, fold=fo)))),
+                        dict(case, kind="cache-entry"), text)
+                    break
+            # two threads: a miss that inserts (writer) against a lookup of the same / a cached key, pre-empted at every statement
+            if k >= ctx.budget(2, 10):
+                continue
+            y0, y1 = rng.sample(range(2000, 2030), 2)
+            text2 = vtimezone(spec, order=k % 2, first_year=1999)          # short rules: the schedules re-load the definition every time
+            mk = lambda text2=text2: load(text2).get()
+            tu0, tu1 = transitions_utc(spec, y0), transitions_utc(spec, y1)
+            k0 = ("comp", tu0[0] + datetime.timedelta(seconds=spec["dst"] + 3600), 0)        # in DST
+            k1 = ("comp", tu1[1] + datetime.timedelta(seconds=spec["std"] + 3600), 0)        # back on standard time
+            k2 = ("off", tu1[0] + datetime.timedelta(seconds=spec["dst"] + 60), 0)
+            for warm, jobs in (([k0], [[k1], [k1]]), ([k0], [[k1], [k0]]), ([k0, k2], [[k1], [k2]]), ([], [[k0], [k1]])):
+                if not S.threads(ctx, "tzical-two-threads", mk, mk, funcs, "_cache_lock", warm, jobs, dict(case, years=[y0, y1])):
+                    break
+    ctx.count("shared_object_zones")
+
+_oracle_without_shared = oracle
+
+def oracle(ctx):
+    _oracle_without_shared(ctx)
+    oracle_shared(ctx)
+
+_correspondence_without_audit = correspondence
+
+def correspondence(ctx):
+    _correspondence_without_audit(ctx)
+    import tzshared
+    tzshared.run_audit(ctx, ["_tzicalvtz", "_tzicalvtzcomp", "_tzinfo"])
+
+TRUSTED = TRUSTED + [
+    "one object, many calls: harness/tzshared.py — history stream on one _tzicalvtz (> 10 distinct lookups several times over, repeats, year 1 / year 9999, then a check that the two cache lists are in step entry by entry), two-thread statement-level schedules over _find_comp/_find_compdt/utcoffset/dst/tzname with `_cache_lock` replaced by a cooperative lock, and an AST audit that nothing but the two cache lists is written outside __init__",
+]
+# --- end of the appended block
